@@ -125,10 +125,16 @@ def _sample_discrete__python(pmf, rand):
 
     """
     total = 0
+    last = None
     for i, prob in enumerate(pmf):  # pragma: no branch
         total += prob
         if rand < total:
             return i
+        if prob > 0:
+            last = i
+    # Rounding can leave the total slightly below 1 and `rand` at or above it;
+    # the sample then belongs to the last outcome of positive probability.
+    return last
 
 
 def _samples_discrete__python(pmf, rands, out=None):
@@ -162,11 +168,19 @@ def _samples_discrete__python(pmf, rands, out=None):
     for i in range(L):
         rand = rands[i]
         total = 0
+        last = 0
         for j in range(n):  # pragma: no branch
             total += pmf[j]
             if rand < total:
                 out[i] = j
                 break
+            if pmf[j] > 0:
+                last = j
+        else:
+            # Rounding can leave the total slightly below 1 and `rand` at or
+            # above it; the sample then belongs to the last outcome of
+            # positive probability (instead of leaving out[i] uninitialised).
+            out[i] = last
 
     return out
 
